@@ -5,6 +5,7 @@
 -/
 import Csvq.Lemmas.Compare
 import Csvq.Model.Float
+import Csvq.Lemmas.Text
 namespace Csvq.C06
 open Csvq
 
@@ -330,6 +331,44 @@ theorem fmod_agrees_int (p q : Int) (hq : q ≠ 0) :
     split <;> simp [FVal.feq, FVal.num?]
   · simp only [hr, if_false]
     simp [FVal.feq, FVal.num?]
+
+/-! ## casting between text and integers (strconv.FormatInt / ParseInt as modelled in Model/Text.lean,
+    both tied to the implementation by the streams c06.sint and c06.itext) -/
+
+/-- the text csvq prints for an integer converts back to the same integer, for every int64 -/
+theorem int_text_roundtrip (i : Int) (h : inI64 i) : strToIntStrict (decText i) = some i := by
+  unfold strToIntStrict
+  have hd : ∀ b ∈ decText i, isAsciiSpace b = false := by
+    intro b hb
+    unfold decText at hb
+    have key : ∀ b ∈ natDigits (i.natAbs + 1) i.natAbs [], 48 ≤ b ∧ b ≤ 57 := by
+      intro b hb
+      rcases natDigits_bytes i.natAbs (i.natAbs + 1) [] (by omega) b hb with h | h
+      · exact h
+      · simp at h
+    unfold isAsciiSpace
+    by_cases hn : i < 0
+    · simp only [hn, if_true, List.mem_cons] at hb
+      rcases hb with rfl | hb
+      · decide
+      · have := key b hb; simp; omega
+    · simp only [hn, if_false] at hb
+      have := key b hb; simp; omega
+  have ht : trimAscii (decText i) = decText i := by
+    unfold trimAscii
+    have h1 : ∀ (l : Bytes), (∀ b ∈ l, isAsciiSpace b = false) → l.dropWhile isAsciiSpace = l := by
+      intro l hl
+      cases l with
+      | nil => rfl
+      | cons a t => simp [List.dropWhile, hl a (by simp)]
+    rw [h1 _ hd, h1 _ (by intro b hb; exact hd b (by simpa using hb))]
+    simp
+  rw [ht]; exact parseIntStrict_decText i h
+
+/-- a string is an integer only inside the int64 range: larger magnitudes are not integers -/
+theorem int_out_of_range_not_integer (s : Bytes) (i : Int) (h : parseSigned s = some i) (hr : ¬ inI64 i) :
+    parseIntStrict s = none := by
+  unfold parseIntStrict; rw [h]; unfold inI64 at hr; simp [hr]
 
 /-! ## non-vacuity: concrete operands meeting the hypotheses -/
 
